@@ -361,7 +361,7 @@ pub fn run(tier: &str) -> i32 {
     progs.extend(b.levels[0].iter().cloned());
     progs.extend(b.levels[1].iter().cloned());
     let l3 = &b.levels[2];
-    let step = if thorough { 2 } else { (l3.len() / 900).max(1) };
+    let step = if thorough { 1 } else { (l3.len() / 900).max(1) };
     progs.extend(l3.iter().step_by(step).cloned());
     progs.extend(extra_pool());
     progs.extend(same_name_family(false).into_iter().step_by(41).filter(|_| false)); // same-named rules are outside C09 (distinct names)
